@@ -1,4 +1,6 @@
 pub mod c03;
+pub mod c04;
+pub mod c13;
 pub mod selftest;
 
 use crate::engine::{Family, Tier};
@@ -7,6 +9,8 @@ pub fn run(id: &str, tier: Tier, hash_out: Option<String>) -> i32 {
     match id {
         "SELFTEST" => selftest::run(),
         "C03" => c03::run(tier, hash_out),
+        "C04" => c04::run(tier),
+        "C13" => c13::run(tier),
         _ => {
             eprintln!("unknown property {}", id);
             2
@@ -17,6 +21,8 @@ pub fn run(id: &str, tier: Tier, hash_out: Option<String>) -> i32 {
 pub fn replay_families(id: &str, tier: Tier) -> Option<Vec<Family<'static>>> {
     match id {
         "C03" => Some(c03::replay_families(tier)),
+        "C04" => Some(c04::replay_families(tier)),
+        "C13" => Some(c13::replay_families(tier)),
         _ => None,
     }
 }
